@@ -1,13 +1,18 @@
-(** Correspondence cases for C08: the reified function graph of a loaded target and the expansion tree observed in the
-    implementation's decoded fingerprint. *)
+(** Correspondence cases for C08: the reified function graph of a loaded target and the token tree observed in the
+    implementation's decoded fingerprint: an expanded function environment (with the label of its bytecode and, inside,
+    the tokens of its parts in pickling order), a placeholder for a function in progress (with the ordinal it carries),
+    or another occurrence of an already decoded function environment (with the ordinal of that function, i.e. the number
+    of function environments whose expansion started before its own). *)
 From Dawn Require Import Fingerprint.Model.
 
-Inductive sk := Sk (label : N) (children : list sk).
+Inductive sk := Sk (label : N) (children : list sk) | SkRec (ord : N) | SkRef (ord : N).
 
 Fixpoint strip (t : tree) : list sk :=
   match t with
   | TFun n _ ch => [Sk n ((fix go (l : list tree) := match l with [] => [] | x :: r => strip x ++ go r end) ch)]
-  | _ => []
+  | TRec _ o => [SkRec o]
+  | TRef _ o => [SkRef o]
+  | TUnknown => []
   end.
 
 Fixpoint sk_eqb (a b : sk) {struct a} : bool :=
@@ -20,6 +25,9 @@ Fixpoint sk_eqb (a b : sk) {struct a} : bool :=
          | p :: r, q :: r' => sk_eqb p q && go r r'
          | _, _ => false
          end) xs ys
+  | SkRec x, SkRec y => x =? y
+  | SkRef x, SkRef y => x =? y
+  | _, _ => false
   end.
 
 Fixpoint sks_eqb (a b : list sk) : bool :=
